@@ -22,6 +22,7 @@ import (
 	_ "github.com/klev-dev/klevdb/internal/zzverif/h_backup"
 	_ "github.com/klev-dev/klevdb/internal/zzverif/h_crash"
 	_ "github.com/klev-dev/klevdb/internal/zzverif/h_sync"
+	_ "github.com/klev-dev/klevdb/internal/zzverif/h_conc"
 	"github.com/klev-dev/klevdb/internal/zzverif/vrt"
 )
 
